@@ -243,11 +243,11 @@ Section Tokens.
   Lemma token_sign fuel c : c = 43 \/ c = 45 -> parse_token fuel c = sign_arm fuel c.
   Proof. intros [->| ->]; reflexivity. Qed.
 
-  (* what follows a printed datum: end of input, a space or a closing parenthesis *)
+  (* what follows a printed datum: end of input, a space, a closing parenthesis or bracket *)
   Definition delim_ok (rest : bytes) : Prop :=
-    match rest with [] => True | d :: _ => d = 32 \/ d = 41 end.
+    match rest with [] => True | d :: _ => d = 32 \/ d = 41 \/ d = 93 end.
   Lemma delim_ok_terminator rest : delim_ok rest -> at_terminator rest.
-  Proof. destruct rest as [|d rest]; [auto|]. intros [->| ->]; reflexivity. Qed.
+  Proof. destruct rest as [|d rest]; [auto|]. intros [->|[->| ->]]; reflexivity. Qed.
 
   Lemma tok_symbol_sign fuel r c s' rest : c = 43 \/ c = 45 ->
     (match s' with [] => True | c2 :: _ => sign_next_ok c2 = true end) ->
@@ -270,7 +270,7 @@ Section Tokens.
     assert (Hcond : (let nx := match s' ++ rest with [] => 0 | b :: _ => b end in
                      (nx =? 0) || is_delimiter nx || is_sign_subsequent nx || (nx =? 46) || (127 <? nx)) = true).
     { destruct s' as [|c2 s'']; cbn [app].
-      - destruct rest as [|d rest']; [reflexivity|]. destruct Hd as [->| ->]; reflexivity.
+      - destruct rest as [|d rest']; [reflexivity|]. destruct Hd as [->|[->| ->]]; reflexivity.
       - exact Hnext. }
     cbv zeta in Hcond. rewrite Hcond.
     unfold parse_symbol_suffix.
